@@ -2,8 +2,8 @@ package wworld
 
 import (
 	"database/sql"
-	"encoding/json"
 	"encoding/hex"
+	"encoding/json"
 	"fmt"
 	"os"
 	"path/filepath"
@@ -12,9 +12,9 @@ import (
 	"strings"
 
 	"github.com/elnosh/gonuts/cashu"
-	"github.com/elnosh/gonuts/cashu/nuts/nut11"
 	"github.com/elnosh/gonuts/cashu/nuts/nut04"
 	"github.com/elnosh/gonuts/cashu/nuts/nut10"
+	"github.com/elnosh/gonuts/cashu/nuts/nut11"
 	"github.com/elnosh/gonuts/mint"
 	"github.com/elnosh/gonuts/wallet"
 	"github.com/elnosh/gonuts/wallet/storage"
@@ -92,11 +92,11 @@ type World struct {
 	// OnLoadWallet is applied to every wallet store wrapper (crash hooks, observers)
 	OnLoadWallet func(w *WalletW)
 	// OnTokens observes proofs returned to the wallet's caller (Send*, HTLC)
-	OnTokens func(ps cashu.Proofs)
-	rotations    map[string]int
-	logPos       int
-	feePos       int
-	giver        *world.User
+	OnTokens  func(ps cashu.Proofs)
+	rotations map[string]int
+	logPos    int
+	feePos    int
+	giver     *world.User
 }
 
 func URL(mintName string) string { return "http://mint-" + mintName }
@@ -263,20 +263,21 @@ func (w *World) tokenOf(t *Token) cashu.Token {
 const htlcPreimage = "aabbccddeeff00112233445566778899aabbccddeeff00112233445566778899"
 
 // Exec runs one wallet-level operation.
-//   mint|w|amount            RequestMint + user pays + MintTokens
-//   send|w|amount|f          Send (f=1: include fees) -> token in flight
-//   sendpk|w|to|amount[|A]   SendToPubkey(to's receive key; A: SIG_ALL) -> token in flight
-//   htlc|w|amount            HTLCLockedProofs -> token in flight
-//   recv|w|ti|s              Receive / ReceiveHTLC token ti (s=1: swap to trusted mint)
-//   melt|w|amount|S/F/P      RequestMeltQuote(external invoice) + Melt with the backend answering S / F(ailed) / P(ending)
-//   lnfinal|w|mi|S/F         the backend settles / fails the pending payment of wallet w's melt mi
-//   checkmelt|w|mi           CheckMeltQuoteState
-//   reclaim|w  rmspent|w     ReclaimUnspentProofs / RemoveSpentProofs
-//   addmint|w|m              AddMint
-//   mintswap|w|amount|from|to|S/F  MintSwap with the Lightning payment succeeding / failing
-//   rotate|m|fee             mint restart with keyset rotation
-//   reload|w                 Shutdown + LoadWallet
-//   restore|w                the wallet is lost; a new one is restored from the mnemonic into an empty directory
+//
+//	mint|w|amount            RequestMint + user pays + MintTokens
+//	send|w|amount|f          Send (f=1: include fees) -> token in flight
+//	sendpk|w|to|amount[|A]   SendToPubkey(to's receive key; A: SIG_ALL) -> token in flight
+//	htlc|w|amount            HTLCLockedProofs -> token in flight
+//	recv|w|ti|s              Receive / ReceiveHTLC token ti (s=1: swap to trusted mint)
+//	melt|w|amount|S/F/P      RequestMeltQuote(external invoice) + Melt with the backend answering S / F(ailed) / P(ending)
+//	lnfinal|w|mi|S/F         the backend settles / fails the pending payment of wallet w's melt mi
+//	checkmelt|w|mi           CheckMeltQuoteState
+//	reclaim|w  rmspent|w     ReclaimUnspentProofs / RemoveSpentProofs
+//	addmint|w|m              AddMint
+//	mintswap|w|amount|from|to|S/F  MintSwap with the Lightning payment succeeding / failing
+//	rotate|m|fee             mint restart with keyset rotation
+//	reload|w                 Shutdown + LoadWallet
+//	restore|w                the wallet is lost; a new one is restored from the mnemonic into an empty directory
 func (w *World) Exec(op string) error {
 	f := strings.Split(op, "|")
 	arg := func(i int) string {
